@@ -2,8 +2,8 @@ package props
 
 import (
 	"fmt"
-	"sort"
 	"go/constant"
+	"sort"
 
 	"golang.org/x/tools/go/ssa"
 
